@@ -51,7 +51,7 @@ def multi_statement(seed, i):
 
 
 def cases(O):
-    n = 200 if O.tier == "quick" else 3000
+    n = 400 if O.tier == "quick" else 3000
     opts = {"reparse": True}
     cs = F.regress_cases(opts=opts) + F.snippet_cases(opts=opts)
     gen = F.generated_cases(O.seed, n, "c09", cfg_fn=F.config_variants, opts=opts) + E.catalogue_cases(O.seed, n, "c09", cfg_fn=F.config_variants, opts=opts)
